@@ -98,7 +98,7 @@ pub const VALUE_EDGES: &[&str] = &[
     "", "0", "-0", "-1", "1", "255", "256", "4294967295", "4294967296", "18446744073709551615", "18446744073709551616", "18446744073709551617", "1.8446744073709552e19", "1.8446744073709551e19",
     "1e19", "1e20", "1e308", "1e309", "inf", "-inf", "infinity", "NaN", "nan", "1e-320", ".5", "5.", "+1", " 1", "1 ", "0x10", "1:2", ":", "1:", ":2", "1-", "-", "1--2", "-1-2", "1-2", "1.5-", "1.5-18446744073709551616",
     "18446744073709551616-", "=", "a=", "=b", "a=b=c", "play", "Play", "pause", "stop", "oneshot", "off", "Off", "track", "auto", "true", "é", "日本", "2020-06-12T17:53:00Z", "2020-06-12T17:53:00+02:00",
-    "2020-06-12 17:53:00", "2020-13-45T99:99:99Z", "9999999999-01-01T00:00:00Z", "-2020-06-12T17:53:00Z", "0000-00-00T00:00:00Z", "123:456", "123:18446744073709551616", "340282366920938463463374607431768211456",
+    "2020-06-12 17:53:00", "202\u{e9}06-12T17:53:00Z", "2020-06-12T1\u{e9}53:00Z", "2020-06-1\u{e9}T17:53:0Z", "\u{20ac}020-06-12T17:53:0Z", "2020-06-12T17:53:\u{e9}Z", "2020-13-45T99:99:99Z", "9999999999-01-01T00:00:00Z", "-2020-06-12T17:53:00Z", "0000-00-00T00:00:00Z", "123:456", "123:18446744073709551616", "340282366920938463463374607431768211456",
     "179769313486231570000000000000000000000000000000000000000000000000000000000000000000000000000000000000000000000000000000000000000000000000000000000000000000000000000000000000000000000000000000000000000000000000000000000000000000000000000000000000000000000000000000000000000000000000000000000000000000000000000",
 ];
 
